@@ -946,10 +946,14 @@ c_status_t UMFindData(const UMessage * msg, const char * fieldName, uint32 dataT
       idx--;
    }
    if (pointerToBlob >= afterEndOfField) return CB_ERROR;
+   {
+      const uint32 blobSize = UMReadInt32(pointerToBlob-sizeof(uint32));
+      if (blobSize > (uint32)(afterEndOfField-pointerToBlob)) return CB_ERROR;  /* the blob must fit inside its field */
 
-   *retDataBytes = pointerToBlob;
-   *retNumBytes  = UMReadInt32(pointerToBlob-sizeof(uint32));
-   return CB_NO_ERROR;
+      *retDataBytes = pointerToBlob;
+      *retNumBytes  = blobSize;
+      return CB_NO_ERROR;
+   }
 }
 
 c_status_t UMFindMessage(const UMessage * msg, const char * fieldName, uint32 idx, UMessage * retMessage)
